@@ -252,16 +252,32 @@ class Universe:
         except KeyError:
             raise AnalysisError(f"module {name} not found in the analysed universe")
 
+    def canonical(self, key: str) -> str:
+        """The key under which a function / class documented as *key* lives today (it may have moved to another module)."""
+        if key in self.functions or key in self.classes:
+            return key
+        if ":" not in key:
+            return key
+        modname, qual = key.split(":", 1)
+        external = modname.startswith("x690")
+        cands = [k for k, f in self.functions.items() if k.split(":", 1)[1] == qual and f.module.external == external]
+        cands += [k for k, c in self.classes.items() if k.split(":", 1)[1] == qual and c.module.external == external]
+        if len(cands) == 1:
+            return cands[0]
+        return key
+
     def func(self, key: str) -> FuncInfo:
+        key = self.canonical(key)
         try:
             return self.functions[key]
         except KeyError:
             raise AnalysisError(f"function {key} not found (anchor vanished)")
 
     def maybe_func(self, key: str) -> Optional[FuncInfo]:
-        return self.functions.get(key)
+        return self.functions.get(self.canonical(key))
 
     def cls(self, key: str) -> ClassInfo:
+        key = self.canonical(key)
         try:
             return self.classes[key]
         except KeyError:
